@@ -42,12 +42,13 @@ def MC_RUNS(quick):
                                      "Chung-Hasan squaring, sparse and lazy-reduced (accumulators in [0, pR]) products on a 216 x 27 lattice; fp12 "
                                      "Karatsuba / complex squaring / lazy / both sparse patterns on a lattice; Granger-Scott, Karabina squaring "
                                      "and decompression on ALL Phi_12(7) = 2353 elements of the cyclotomic subgroup", False),
-            ("TowerAlg", "TowerAlg_p13", "p = 13, u^2 = -2, xi = u (the p = 5 mod 8 forms), quad/sextic/dodecic phases", False),
-            ("TowerAlg", "TowerAlg_p19", "p = 19, xi = 1 + u (the p = 3 mod 8 forms), quad/sextic/dodecic phases", False)]
+            ("TowerAlg", "TowerAlg_p13", "p = 13, u^2 = -2, xi = u (the p = 5 mod 8 forms): all 169^2 fp2 pairs, sextic lattice", False),
+            ("TowerAlg", "TowerAlg_p19", "p = 19, xi = 1 + u (the p = 3 mod 8 forms): all 361^2 fp2 pairs, sextic lattice", False)]
     if not quick:
         runs += [("MCTowerFrb", "MCTowerFrb_p13", "p = 13 (12 | p-1: every descent step)", False),
                  ("TowerAlg", "TowerAlg_p11", "p = 11, xi = 4 + u, larger lattices, all Phi_12(11) = 14521 cyclotomic elements", False),
-                 ("TowerAlg", "TowerAlg_p13full", "p = 13, larger lattices, all Phi_12(13) = 28393 cyclotomic elements", False)]
+                 ("TowerAlg", "TowerAlg_p13full", "p = 13, quad/sextic/dodecic phases on the larger lattices", False),
+                 ("TowerAlg", "TowerAlg_p19full", "p = 19, quad/sextic/dodecic phases on the larger lattices", False)]
     return runs
 
 
@@ -70,9 +71,11 @@ def tiny_cases(exe, ops, rng, tier):
         allv = [gen_fpx.tok([a, b]) for a in range(p) for b in range(p)]
         # degree 2: every element / every pair (p = 7) or a dense sample of pairs
         pairs = [(a, b) for a in allv for b in allv] if p <= 7 else \
-            [(rng.choice(allv), rng.choice(allv)) for _ in range(1500 if quick else 12000)]
+            [(rng.choice(allv), rng.choice(allv)) for _ in range(800 if quick else 12000)]
         for f in ("mul", "mul_basic", "mul_integ", "add", "sub"):
-            for j, (a, b) in enumerate(pairs if f.startswith("mul") else pairs[:600]):
+            # all pairs for the default multiplication (p = 7; thorough: every variant), a sample for the others
+            ps = pairs if (f == "mul" or not quick) else rng.sample(pairs, min(len(pairs), 400))
+            for j, (a, b) in enumerate(ps):
                 G.line("fp2_" + f, j % 5, a, b)
         for f in ("sqr", "sqr_basic", "sqr_integ", "inv", "mul_nor", "mul_nor_basic", "mul_nor_integ", "mul_art", "neg", "dbl",
                   "conv_cyc", "inv_cyc", "srt"):
@@ -85,10 +88,10 @@ def tiny_cases(exe, ops, rng, tier):
                 G.line("fp2_frb", 0, a, k, 1 if k == 1 else 0)
         for n in adm:
             if n != 2:
-                gen_fpx.gen_level(G, n, tier, scale=1.0, heavy=(n <= 6))
+                gen_fpx.gen_level(G, n, tier, scale=0.5 if quick else 1.0, heavy=(n <= 6))
         if 12 in adm:
             # many cyclotomic elements: the coefficient patterns that are rare at 256 bits occur here
-            for j in range(150 if quick else 1500):
+            for j in range(120 if quick else 1500):
                 G.line("fp12_back_cyc", j % 2, ("k:" if j % 3 else "K:") + G.nonzero(12))
                 if j % 3 == 0:
                     G.line("fp12_sqr_cyc", j % 2, "c:" + G.nonzero(12))
